@@ -14,16 +14,20 @@ RULE = ("fmt: product conversion{none,b,c,d,i,o,X,x} x argument kind(15 C++ type
         "x fill/width{none,0,1,5,05,012,20,020,70,070}; random formats from the grammar with explicit/out-of-range positions, "
         "{{, }}, unclosed and cut-off braces, bytes >= 128 and NUL, 0-3 arguments; widths/positions that do not fit int/size_t; "
         "malformed stream: every string over `{ } : 0 9 x q` of length <= 5 (sampled in quick) and 6 (thorough), byte mutations and "
-        "every prefix of valid formats; format strings and string arguments in exact-size heap blocks.  logger: Limit in {2,3,8,64}, "
-        "message lengths 0..3*Limit+2 and m*(Limit-1)+{-1,0,1}, 1-4 appends per message of C strings, views, integers and fmt() "
-        "objects; no endlog, two endlogs, an assertion inside an append.  non-trivial = distinct format string containing a brace, "
+        "every prefix of valid formats; format strings and string arguments in exact-size heap blocks; fmt objects built from RVALUE "
+        "arguments (function results, moved locals of a dead frame) returned from a noinline helper / kept in a variable and rendered after "
+        "the stack was overwritten, and the storage class of the fmt object's arguments read off its type.  logger: Limit in "
+        "{2,3,7,8,16,128}, message lengths 0..3*Limit+2 and m*(Limit-1)+{-1,0,1}, 1-4 appends per message of C strings, views, integers, "
+        "chars and fmt() objects; a C-string append ending at m*(Limit-1)+{-1,0,1} and m*Limit+{-1,0,1} bytes of text (m = 1..3) followed "
+        "by every other kind of append; no endlog, two endlogs, an assertion inside an append.  non-trivial = distinct format string containing a brace, "
         "or distinct (Limit, script) of a logger run with at least one flush before endlog")
 TRUSTED = ["extraction: ExtrOcamlBasic only; OCaml 4.13.1; comp/fmt/driver.ml (hex/decimal parsing, the table C++ argument type -> model arg "
            "that mirrors overload resolution of format_object: short, unsigned short, signed char, unsigned char, bool promote to int)",
            "correspondence harness comp/fmt/harness.cpp (g++ -fsanitize=address,undefined, -O0): byte-collecting sink, recording logger "
            "sink (with begin/finalize), typed trampolines (every kind for 1 argument, 8 kinds for 2, 4 kinds for 3)",
            "oracle: reference renderer in the harness written from the documented grammar ([0-9]+)?(:0?[0-9]*[bcdioXx]?)? with std::regex "
-           "and glibc snprintf; chunk concatenation / chunk size for the logger; ASan, UBSan (signed overflow, array bounds)",
+           "and glibc snprintf; chunk concatenation / chunk size for the logger; type traits on decltype(frg::fmt(...)) (kind fmt-owns); ASan "
+           "(incl. stack-use-after-scope and, with detect_stack_use_after_return=1 for this harness, stack-use-after-return), UBSan (signed overflow, array bounds)",
            "modelled, not verified: the sink's own append (std::string), C-string arguments as `bytes followed by NUL`"]
 ASSUMPTIONS = ["LP64: int 32 bits, long = long long = size_t = uintptr_t 64 bits, char signed 8 bits",
                "argument values are values of their C++ type (args_ok); const char * arguments are NUL-terminated arrays",
@@ -34,7 +38,9 @@ ASSUMPTIONS = ["LP64: int 32 bits, long = long long = size_t = uintptr_t 64 bits
                "automatic argument index = ordinal number of the brace group (explicit-position and malformed groups count too), as in the source; "
                "the c conversion on a non-char integer argument stops in the assertion of format_integer (taken as a documented precondition)"]
 
-C19_KINDS = {"fmt-spec", "logger"}
+C19_KINDS = {"fmt-spec", "logger", "fmt-owns"}
+# fmt objects that outlive their creating expression must own rvalue arguments: let ASan see a dead frame
+SAN = {"ASAN_OPTIONS": vlib.SAN_ENV["ASAN_OPTIONS"].replace("detect_stack_use_after_return=0", "detect_stack_use_after_return=1")}
 _built = {}
 
 
@@ -97,7 +103,7 @@ def _count(c, cases):
 
 def _run_batch(c, cases, har, drv, okd, focus):
     _count(c, cases)
-    impl = vlib.run_cases(har, cases, timeout=900)
+    impl = vlib.run_cases(har, cases, timeout=900, env=SAN)
     model = vlib.run_cases(drv, cases, timeout=900) if okd else {}
     for r in impl.values():
         for l in r["lines"]:
